@@ -186,6 +186,30 @@ class AdapterProp(Prop):
 
 
 DESTS = [0, 1, 2, 3, 8]
+NOVEL = []      # see vlib/dictionary.py
+
+
+def dictionary_chain():
+    cases = []
+    for v in NOVEL:
+        if v > 70000:
+            continue
+        for s1 in ([65] * v, [65] * (v + 1), [65, 66]):
+            for d in (v, v + 1, max(v - 1, 0)):
+                cases.append(mk_chain(s1, [], [99, 100], [], [], [("R", d), ("R", d), ("R", 8), ("R", 8)], "dictionary"))
+                cases.append(mk_chain(s1, [(0, max(v, 1), 0)], [99] * min(v + 1, 70000), [(0, max(v, 1), 0)], [], [("R", 8), ("R", d), ("R", d), ("R", d)], "dictionary"))
+    return cases
+
+
+def dictionary_take():
+    cases = []
+    for v in NOVEL:
+        for limit in (v, v + 1, max(v - 1, 0)):
+            n = min(v + 2, 70000)
+            for d in (8, min(v, 70000), min(v + 1, 70000)):
+                cases.append(mk_take(limit, [97 + (i % 26) for i in range(n)], [], [], [("R", d), ("R", d), ("R", 8)], "dictionary"))
+                cases.append(mk_take(limit, [97 + (i % 26) for i in range(n)], [(0, max(min(v, 70000), 1), 0)] * 2, [], [("R", d), ("R", 1), ("R", d)], "dictionary"))
+    return cases
 
 
 class C08(AdapterProp):
@@ -224,6 +248,8 @@ class C08(AdapterProp):
                 else:
                     ops.append(("F",))
             cases.append(mk_chain(s1, rscripts(rng, rng.randrange(0, 6)), s2, rscripts(rng, rng.randrange(0, 6)), wscripts(rng, rng.randrange(0, 4)), ops, "random"))
+        if NOVEL:
+            cases += dictionary_chain()
         return cases
 
     def check(self, case, trace, prof):
@@ -277,6 +303,8 @@ class C09(AdapterProp):
                 else:
                     ops.append(("F",))
             cases.append(mk_take(limit, s2, rscripts(rng, rng.randrange(0, 7)), wscripts(rng, rng.randrange(0, 4)), ops, "random"))
+        if NOVEL:
+            cases += dictionary_take()
         return cases
 
     def check(self, case, trace, prof):
